@@ -216,12 +216,16 @@ def install(eng):  # noqa: C901
     reg(all, b_all)
 
     def b_enumerate(e, it, start=0):
-        return enumerate(e.iterate(it), start)
+        def gen():
+            yield from enumerate(e.iterate(it), start)
+        return gen()
 
     reg(enumerate, b_enumerate)
 
     def b_zip(e, *its):
-        return zip(*[e.iterate(i) for i in its])
+        def gen():
+            yield from zip(*[e.iterate(i) for i in its])
+        return gen()
 
     reg(zip, b_zip)
 
@@ -241,7 +245,7 @@ def install(eng):  # noqa: C901
     reg(set, b_set)
 
     def b_dict(e, *a, **k):
-        d = {}
+        d = SymDict()
         if a:
             src = a[0]
             if isinstance(src, (dict, SymDict)):
@@ -251,7 +255,7 @@ def install(eng):  # noqa: C901
             for kk, vv in items:
                 d = e.dict_set(d, kk, vv)
         for kk, vv in k.items():
-            d[kk] = vv
+            d.set(e, kk, vv)
         return d
 
     reg(dict, b_dict)
@@ -600,9 +604,10 @@ def install(eng):  # noqa: C901
         m = {
             'get': lambda k, default=None: _sd_get(e, d, k, default),
             'pop': lambda k, *df: _sd_pop(e, d, k, *df),
-            'items': lambda: list(d.items_),
-            'keys': lambda: [k for k, _ in d.items_],
-            'values': lambda: [v for _, v in d.items_],
+            'items': lambda: d.items(),
+            'keys': lambda: [k for k, _ in d.items()],
+            'values': lambda: [v for _, v in d.items()],
+            'copy': lambda: SymDict(d.items()),
             'update': lambda o=(): [d.set(e, k, v)
                                     for k, v in e.dict_items(o)] and None,
             'setdefault': lambda k, df=None: _sd_setdefault(e, d, k, df),
@@ -629,7 +634,7 @@ def install(eng):  # noqa: C901
     def _sd_setdefault(e, d, k, df):
         kk = d.find(e, force(k))
         if kk is _MISSING:
-            d.items_.append((force(k), df))
+            d._append(force(k), df)
             return df
         return d.get_stored(kk)
 
@@ -638,6 +643,8 @@ def install(eng):  # noqa: C901
     def symset_attr(e, s, name):
         if name == 'add':
             f = lambda x: s.add(e, x)  # noqa: E731
+        elif name == 'update':
+            f = lambda it: [s.add(e, x) for x in e.iterate(it)] and None  # noqa
         else:
             raise PyRaise(AttributeError(name))
         f._pyvc_symbolic_ok = True
